@@ -115,6 +115,13 @@ class C15(PropBase):
             if fk and steps and r < 0.15:
                 steps.append(hist.fault_step(rng, rng.choice(fk), steps))
                 continue
+            if "clear_typing" in sw and "clear" in sw and r < 0.12:
+                k = rng.randint(8, 30)
+                burst = [rng.choice(RAW)[0] for _ in range(k)]
+                order2 = list(range(k))
+                rng.shuffle(order2)
+                steps.append({"op": "respell", "srcs": burst, "order2": order2, "mod": "vw0"})
+                continue
             t, passthrough = rng.choice(types)
             if r < 0.4:
                 step = {"op": "build", "kind": rng.choice(["marshaller", "unmarshaller", "codec"]), "t": t, "mod": "vw0"}
@@ -133,10 +140,13 @@ class C15(PropBase):
     def pre_run(self, sess):
         sess.probe_memo = {}
         sess.build_memo = {}
+        sess.drop_refs_on_clear = True
 
     def exec_op(self, sess, i, step):
         import typelib
 
+        if step["op"] == "respell":
+            return self._respell(sess, i, step)
         if step["op"] != "probe":
             return None
         T = sess.T(step)
@@ -146,7 +156,52 @@ class C15(PropBase):
             return sess.guarded(sess.call, step, typelib.unmarshal, T, x)
         return sess.guarded(sess.call, step, typelib.marshal, x, t=T)
 
+    def _respell(self, sess, i, step):
+        """F1 at scale: build routines for many annotations, clear every memo and typing's caches,
+        let the annotation objects die, spell the same annotations again (other order) and rebuild:
+        each must behave as before."""
+        import gc
+
+        import typelib
+
+        gl = sess.world.modules["vw0"].__dict__
+
+        def behaviour(src):
+            T = eval(src, gl)
+            res = []
+            for kind in ("marshaller", "unmarshaller"):
+                b = sess.guarded(sess.call, step, getattr(typelib, kind), T)
+                res.append(type(b.value).__name__ if b.ok else "build-raised:" + type(b.exc).__name__)
+            for x in ({"$list": [1, "a"]}, "1", {"$dict": [["a", 1]]}):
+                o = sess.guarded(sess.call, step, typelib.unmarshal, T, sess.V(x))
+                res.append(o.canon())
+            return res
+
+        first = {}
+        for src in step["srcs"]:
+            first[src] = behaviour(src)
+        sess.memos.clear("all")
+        from .. import seams
+
+        seams.clear_typing_caches()
+        sess.world._tcache.clear()
+        sess.results.clear()
+        sess.outcomes.clear()
+        gc.collect()
+        sess.faults["respell"] += 1
+        sess.fault_fired_before = True
+        diffs = []
+        for j in step["order2"]:
+            src = step["srcs"][j]
+            again = behaviour(src)
+            if again != first[src]:
+                diffs.append({"t": src, "before": _s(first[src]), "after": _s(again)})
+        sess._c15_respell = diffs
+        return Outcome(True, ["respell", len(step["srcs"]), len(diffs)])
+
     def nontrivial(self, sess, i, step, out, hit_delta):
+        if step["op"] == "respell":
+            return True
         if step["op"] == "probe":
             return core.jdump([step["t"], step["x"], step["dir"]]) in sess.probe_memo or sess.fault_fired_before
         if step["op"] == "build":
@@ -155,6 +210,10 @@ class C15(PropBase):
 
     def check(self, sess, i, step, out):
         tsrc = model.tsrc(step["t"], "vw0") if isinstance(step.get("t"), dict) else ""
+        if step["op"] == "respell":
+            for d in sess._c15_respell[:3]:
+                sess.violation("behaviour-not-repeatable", i, dict(d, via="respell after clearing every cache"), sig="not-repeatable:respell")
+            return
         if step["op"] == "build":
             key = core.jdump([step["t"], step["kind"]])
             if not out.ok:
